@@ -514,7 +514,12 @@ func (c *Ctx) entryHeapByName(hn string) Term {
 	} else {
 		hs = srt // map heaps record their full sort
 	}
-	c.declare(name, hs)
+	if !c.declared[name] {
+		c.declare(name, hs)
+		if strings.HasPrefix(hn, "H_") {
+			c.wfHeap(Term{name, hs}, srt, Term{"alloc@0", SInt})
+		}
+	}
 	return Term{name, hs}
 }
 
